@@ -81,6 +81,12 @@ def run(ctx):
         ctx.absorb(it)
         return
     S, js_t, nimp, curr_dt, jj_sym, out_sym, out_fin = step
+    # steps read from a table of differences, (t[1:] - t[:-1])[k], are differences of two elements (k >= 0 for i >= 1)
+    S, curr_dt, js_t, nimp = (_difference_table_reads(x_, lv) for x_ in (S, curr_dt, js_t, nimp))
+    named = {}      # sub-terms given a name below (the previous step when it is read back instead of carried)
+
+    def N(t_):
+        return _difference_table_reads(t_, lv).xreplace(named)
     width = nimp - js_t
     C0 = S.args[0] if fname(S) == "ite" else None
     absd = [x for x in (T.subterms(C0) if C0 is not None else []) if isinstance(x, sp.Abs)]
@@ -94,6 +100,25 @@ def run(ctx):
         if len(lin) == 1:
             prev_c = lin[0]
             future_dt = T.resimplify((sp.expand(inside) - sp.expand(inside).coeff(prev_c) * prev_c) * (-sp.expand(inside).coeff(prev_c)))
+    if prev_c is None and len(absd) == 1:
+        # the previous step is not carried but read back from the samples: |future - P(i)| with P(i) = t[i-1] - t[i-2] for i >= 2
+        # and t[1] - t[0] at the first step is the same comparison; P is named and handled like the carried value
+        end0 = CMP("lt", lv + n - 1, op("len", signal))
+        F = T.ITE(end0, op("item", time, lv + n - 1) - op("item", time, lv + n - 2), curr_dt)
+        Pt = sp.expand(F - absd[0].args[0])
+        m_ = sp.Symbol("_m", integer=True, nonnegative=True)
+        later = sp.expand(_eval_max(Pt.subs(lv, m_ + 2)) - (op("item", time, m_ + 1) - op("item", time, m_)))
+        first = sp.expand(_eval_max(Pt.subs(lv, sp.Integer(1))) - (op("item", time, sp.Integer(1)) - op("item", time, sp.Integer(0))))
+        if later == 0 and first == 0 and not T.find_ops(Pt, "ite"):
+            prev_c = sp.Symbol("previous_step")
+            named[absd[0]] = sp.Abs(F - prev_c)
+            S, js_t, nimp = (x_.xreplace(named) for x_ in (S, js_t, nimp))
+            width = nimp - js_t
+            C0 = S.args[0]
+            absd = [x for x in T.subterms(C0) if isinstance(x, sp.Abs)]
+            future_dt = F
+            ctx.ok("R20.2", "integrate[previous step]", "the step compared with is the one that ended at the previous sample "
+                   "(read back from the samples; the first step is compared with itself)", L.loc, derived=Pt)
     one_sided = None
     if C0 is not None and not absd:
         # no |.|: a single ordering comparison on a difference with a carried time step tests one sign of the jitter only
@@ -145,18 +170,18 @@ def run(ctx):
                 # the count of jitter-free steps restarts at a jitter: its next value must not depend on what was counted
                 # before, and the high-order stencil is re-enabled only once that count reaches the stencil width
                 cands = [(nm, c) for nm, c in L.carried.items() if c[1] is not None and c[1] != restart_c and c[1] != prev_c
-                         and c[0] == 0 and c[1] in T.to_term(L.carried[restart_name][2]).free_symbols]
+                         and c[0] == 0 and c[1] in N(L.carried[restart_name][2]).free_symbols]
                 if len(cands) != 1:
                     ctx.unsure("R20.2", "integrate[jitter restarts the count]", "no single step counter feeds the restart flag", L.loc)
                 else:
                     cnm, (c0, csym, cfin) = cands[0]
-                    cfin = T.to_term(cfin)
+                    cfin = N(cfin)
                     underJ = T.resimplify(T.assume(cfin, {J: True}))
                     ctx.expect(csym not in underJ.free_symbols, "R20.2", "integrate[jitter restarts the count]",
                                f"after a jittered step the number of constant steps counted so far (`{cnm}`) does not depend on the "
                                "count before the jitter, so the high-order stencil cannot be re-enabled by steps that precede it",
                                L.loc, derived=underJ)
-                    rfin = T.to_term(L.carried[restart_name][2])
+                    rfin = N(L.carried[restart_name][2])
                     reach = CMP("eq", T.resimplify(T.assume(cfin, {C: True})), op("len", primary))
                     reach_s = [x for x in T.subterms(rfin) if fname(x) in ("eq", "ne") and csym in x.free_symbols]
                     okre = len(reach_s) >= 1 and all(T.equivalent(CMP("eq", *x.args), reach) == T.Verdict.EQUAL for x in reach_s)
@@ -165,10 +190,6 @@ def run(ctx):
                                "the restart flag is cleared only when the updated count equals the width of the requested stencil, "
                                "and stays set on a jittered step otherwise", L.loc, derived=str([T.show(x, 80) for x in reach_s]),
                                required=reach)
-    # a step read from a table of differences, (t[1:] - t[:-1])[i-1], is the difference of the two elements (i >= 1 here)
-    _m = sp.Symbol("_m", integer=True, nonnegative=True)
-    curr_dt = T.resimplify(T.item_of_slice(
-        T.distribute_item(curr_dt), lambda k: bool(getattr(sp.expand(k.subs(lv, _m + 1)), "is_nonnegative", False))))
     ctx.equiv("R20.3", "integrate[step size]", curr_dt, op("item", time, lv) - op("item", time, lv - 1), L.loc,
               "the step is multiplied by the current time step time[i] - time[i-1]", interp=it)
     # R20.3 step shape
@@ -361,6 +382,31 @@ def stencil_definition_rules(ctx, p, align, order, n):
         ctx.expect(okres, R, "lagrange_base_polynomial_coef[result]", "returns the coefficient array divided by the denominator",
                    f.loc(), derived=T.show(r, 160))
     ctx.absorb(it)
+
+
+def _eval_max(t):
+    """maximum(a, b) of two numbers, or of zero and a quantity known to be non-negative"""
+    def fn(n):
+        if fname(n) in ("maximum", "max") and len(n.args) == 2:
+            a, b = n.args
+            if a.is_number and b.is_number:
+                return sp.Max(a, b)
+            for u, v in ((a, b), (b, a)):
+                if u == 0 and getattr(sp.expand(v), "is_nonnegative", False):
+                    return v
+        return None
+    return T.rewrite(t, fn)
+
+
+def _difference_table_reads(t, lv):
+    """(a - b)[k] -> a[k] - b[k] and x[s:][k] -> x[k + s] for k >= 0, the loop variable being >= 1"""
+    m_ = sp.Symbol("_m", integer=True, nonnegative=True)
+
+    def nonneg(k):
+        if fname(k) in ("maximum", "max") and len(k.args) == 2 and any(a.is_number and a >= 0 for a in k.args):
+            return True
+        return bool(getattr(sp.expand(k.subs(lv, m_ + 1)), "is_nonnegative", False))
+    return T.resimplify(T.item_of_slice(T.distribute_item(T.to_term(t)), nonneg))
 
 
 def _norm_len(t):
